@@ -526,6 +526,9 @@ package jsonpatch
 //@ func mergeDocs
 //@   callsite[C19] mapstore#2 a-member-taken-over-from-the-patch-is-pruned-when-applying: arg_key == k && arg_val == v && (!mergeMerge ==> rNoNilMembers(v))
 //@   callees[C19] pruneNulls, merge
+//@   covers[C19] delete#1 a-null-member-always-deletes-when-applying: v == nil && !mergeMerge
+//@   covers[C19] mapstore#1 a-null-member-is-kept-as-a-deletion-when-combining: v == nil && mergeMerge
+//@   covers[C19] mapstore#2|mapstore#3 a-non-null-member-is-always-stored: v != nil
 //@   callsite[C19] pruneNulls#1 new-member-pruned-only-when-applying: !mergeMerge
 //@   callsite[C19] merge#1 merges-current-with-patch-member: arg_cur == cur && arg_patch == v && (arg_mergeMerge <==> mergeMerge)
 //@   requires docs: doc != nil && patch != nil && allocated(doc) && allocated(patch) && *doc != nil
@@ -542,6 +545,12 @@ package jsonpatch
 //@   assume A-merge-entry: rNoNullKids()
 //@   ensures[C19] rejects-ill-formed-doc: !wf(docData) ==> err != nil && result.0 == nil
 //@   ensures[C19] rejects-ill-formed-patch: !wf(patchData) ==> err != nil && result.0 == nil
+//@   ensures[C19] null-document-is-rejected: wf(docData) && wf(patchData) && kind(val(docData)) == KNull ==> err != nil && result.0 == nil
+//@   ensures[C19] two-objects-are-merged: wf(docData) && wf(patchData) && kind(val(docData)) == KObj && kind(val(patchData)) == KObj ==> reached(mergeDocs#1) && reached(Marshal#2)
+//@   ensures[C19] an-object-patch-on-a-non-object-document-is-pruned: wf(docData) && wf(patchData) && kind(val(docData)) != KObj && kind(val(docData)) != KNull && kind(val(patchData)) == KObj && !mergeMerge ==> reached(pruneDocNulls#1) && !reached(mergeDocs#1) && reached(Marshal#2)
+//@   ensures[C19] an-array-patch-replaces-the-document: wf(docData) && wf(patchData) && kind(val(docData)) != KNull && kind(val(patchData)) == KArr ==> reached(pruneAryNulls#1) && reached(Marshal#1) && !reached(mergeDocs#1)
+//@   callsite[C19] mergeDocs#1 the-decoded-document-is-merged-with-the-decoded-patch: arg_doc == doc && arg_patch == patch && (arg_mergeMerge <==> mergeMerge)
+//@   callsite[C19] pruneDocNulls#1 the-patch-is-pruned: arg_doc == patch
 
 //@ func MergePatch
 //@   modifies region(lazyNode.which), region(lazyNode.doc), region(lazyNode.ary), region(lazyNode.raw), region(elem *lazyNode), region(map map[string]*lazyNode), region(cell int64), region(cell container), region(cell any), ghost(BufContent)
